@@ -247,9 +247,63 @@ def h_reject(n_mut, listen_kind):
     return ['reject', 'loaded']
 
 
+RESOLVER = {'one4': ['192.0.2.1'], 'other4': ['192.0.2.77'], 'dual46': ['192.0.2.1', '2001:db8::1'], 'dual64': ['2001:db8::1', '192.0.2.1'],
+            'multi': ['192.0.2.77', '192.0.2.1'], 'multi3': ['198.51.100.9', '192.0.2.77', '192.0.2.1'], 'dup': ['192.0.2.1', '192.0.2.1', '192.0.2.77'],
+            'nothing': None}
+LISTEN_SETS = (('192.0.2.1',), ('192.0.2.77',), ('2001:db8::1',), ('192.0.2.1', '2001:db8::1'), ('192.0.2.77', '198.51.100.9'), ())
+
+
+def h_resolve():
+    """my_addr / peer_addr given as HOST NAMES; the resolver answers with 1-3 addresses in an arbitrary order (case split over RESOLVER) and the
+    daemon listens on an arbitrary set: a connection is loaded only with a local address that (a) the name resolves to and (b) the daemon listens on"""
+    import socket as _socket
+    import types
+    from symx import core
+    from ipaddress import ip_address
+    eng = core.engine()
+    cf = MODS['configuration']
+    my_name = choose(eng, 'my_name', sorted(RESOLVER))
+    peer_name = choose(eng, 'peer_name', ['one4', 'dual64', 'nothing'])
+    listening = [ip_address(x) for x in choose(eng, 'listen_set', LISTEN_SETS)]
+
+    def getaddrinfo(host, port, *a, **k):
+        name = str(host).split('.')[0]
+        if name in RESOLVER:
+            if RESOLVER[name] is None:
+                raise _socket.gaierror(-2, 'Name or service not known')
+            return [((_socket.AF_INET6 if ':' in x else _socket.AF_INET), _socket.SOCK_STREAM, 6, '', (x, 0) if ':' not in x else (x, 0, 0, 0)) for x in RESOLVER[name]]
+        return _socket.getaddrinfo(host, port, *a, **k)
+    real_socket = cf.socket
+    cf.socket = types.SimpleNamespace(getaddrinfo=getaddrinfo, gaierror=_socket.gaierror, **{k: getattr(_socket, k) for k in ('AF_INET', 'AF_INET6', 'error')})
+    d = base_dict()
+    d['conn1']['my_addr'], d['conn1']['peer_addr'] = f'{my_name}.example.org', f'{peer_name}.example.org'
+    try:
+        c = cf.Configuration(listening, d)
+    except cf.ConfigurationError:
+        return ['resolve', 'ConfigurationError']
+    except core.EngineAbort:
+        raise
+    except Exception as ex:      # noqa
+        return {'class': ['resolve', type(ex).__name__], 'violation': f'my_addr={my_name} peer_addr={peer_name}: loading failed with {type(ex).__name__} instead of '
+                                                                      f'ConfigurationError: {ex}'}
+    finally:
+        cf.socket = real_socket
+    for key, ic in c.ike_configurations.items():
+        if key != (ic.my_addr, ic.peer_addr):
+            return {'class': ['resolve'], 'violation': 'connection not keyed by its addresses'}
+        if ic.my_addr not in listening:
+            return {'class': ['resolve'], 'violation': f'my_addr={my_name} (resolves to {RESOLVER[my_name]}), listening on {[str(x) for x in listening]}: the connection was '
+                                                       f'loaded with local address {ic.my_addr}, which the daemon does not listen on'}
+        if str(ic.my_addr) not in (RESOLVER[my_name] or []) or str(ic.peer_addr) not in (RESOLVER[peer_name] or []):
+            return {'class': ['resolve'], 'violation': f'the connection was loaded with addresses {ic.my_addr} / {ic.peer_addr} that the configured names do not resolve to'}
+    return ['resolve', 'loaded' if c.ike_configurations else 'empty']
+
+
 def build_instances(tier):
     inst = []
     nat = common.native_of
+    inst.append(Instance('host names, resolver answers and listening sets', h_resolve, (), native=nat(h_resolve), engine_kw={'max_ticks': 10 ** 7},
+                         must_reach=[('rejected', lambda o: o == ['resolve', 'ConfigurationError']), ('loaded', lambda o: o == ['resolve', 'loaded'])]))
     for v in ('ike_algs', 'ike_id', 'ipsec_algs', 'ipsec_misc'):
         inst.append(Instance(f'faithful {v}', h_faithful, (v,), native=nat(h_faithful), engine_kw={'max_ticks': 10 ** 7, 'max_wall_s': 1500}))
     inst.append(Instance('one ill-typed / missing value', h_reject, (1, 'listening'), native=nat(h_reject), engine_kw={'max_ticks': 10 ** 7},
